@@ -29,6 +29,26 @@ MECH = {
  "C19-r2b": "`round_robin_async` fill via `asyncstdlib.zip` closes the shard stream",
  "C20-r2a": "parsed shard lists cached per (path, recorded checksums): never re-read when no algorithms are configured",
  "C20-r2b": "`dataset_info.json` dumped with `exclude_defaults=True`: recording version dropped",
+ "C02-r3a": "shard decoder cached on the Dataset object; `process_record` overwritten by an overlapping pass",
+ "C02-r3b": "iterative shard-list walk never yields the own shards of a list that has children",
+ "C03-r3a": "cached shard-path list + in-place `random.shuffle` when repeat=False: a shuffled pass permutes later unshuffled passes of the same handle",
+ "C03-r3b": "unshuffled batch cursor moved onto the Dataset object: two live iterators share it",
+ "C04-r3a": "parsed shard lists cached on the handle and reused by fillers: children created later are overwritten",
+ "C04-r3b": "`write_config` starts the merge at the shared depth of the updates instead of 1",
+ "C06-r3a": "`safe_update_file` keeps a backup: target renamed away before the temp file is renamed over it",
+ "C06-r3b": "`shard.close()` handed to a background thread; the shard is listed before it is closed",
+ "C07-r3a": "LazyPool wraps worker failures in RuntimeError + `round_robin` refill swallows RuntimeError",
+ "C07-r3b": "fb `_iterate_content` returns early on empty content (zero-byte shard = no examples)",
+ "C08-r3a": "merge groups deeper updates by the leaf directory name instead of the next path component",
+ "C08-r3b": "per-handle memo of parsed shard lists keyed by (path, checksums): stale on the kept handle without algorithms",
+ "C09-r3a": "`write_config` after every worker result + deletes 'stale' temp files of running workers",
+ "C09-r3b": "shard names from a private `random.Random()` (not re-seeded after fork) + fixed writer directory names",
+ "C13-r3a": "consumer polls results with a timeout and stops when no worker is alive (result still queued)",
+ "C13-r3b": "pool-wide 'stop early' event set by a stale failing call after the pool was reused",
+ "C14-r3a": "LazyPool pulls one extra input every 50 ms the consumer waits",
+ "C14-r3b": "tf.data `cycle_length = file_parallelism or len(shard_paths)`",
+ "C19-r3a": "Rust: static iterator key = map length (two live streams, epoch roll-over)",
+ "C19-r3b": "unshuffled reader as sliding window of futures topped up from done-callbacks; deque append outside the lock",
  "C03-b": "`imap_unordered` + results re-sorted but fillers merged in completion order",
  "C04-a": "merge keeps un-updated children verbatim: child with a deeper update listed twice",
  "C04-b": "example counter incremented before `_write`: rejected writes counted",
